@@ -74,6 +74,8 @@ class PoolGen:
         if minbal is None:
             minbal = r.choice([-50, 0, 40, 40])
         wmin = self.cfg.get("wmin", r.choice(["off", 5, 50]))
+        # a third of the pools run without a payment contract: the balance manager talks to the store driver directly
+        op["raw"] = bool(self.cfg.get("raw", (not self.race) and r.random() < 0.33))
         op["hasmin"], op["minbal"] = (minbal != "off"), (0 if minbal == "off" else minbal)
         op["haswmin"], op["wmin"] = (wmin != "off"), (0 if wmin == "off" else wmin)
         self.emit(op)
@@ -414,7 +416,8 @@ class PoolGen:
         elif kind == "withdraw":
             self.withdraw(r.choice(self.accts), during=(not self.race and r.random() < 0.35))
         elif kind == "deposit":
-            self.emit({"op": "Deposit", "acct": r.choice(ACCTS), "amt": r.choice([0, 10, 100, 1000])})
+            if not self.conf.get("raw"):     # (no contract, no deposits)
+                self.emit({"op": "Deposit", "acct": r.choice(ACCTS), "amt": r.choice([0, 10, 100, 1000])})
         elif kind == "forged":
             self.forged()
         elif kind == "stale":
@@ -478,7 +481,11 @@ class PoolGen:
                 self.connect(c)
         if r.random() < 0.5:
             self.addnode(r.choice(ACCTS), r.choice(CLIENTS))
-        if r.random() < 0.5:
+        if self.cfg.get("prelink") and r.random() < 0.5:
+            # wallets shared from the start: two hosts on one wallet, a client on the wallet of one of its hosts
+            for n, a in (("h1", "a1"), ("h2", "a1"), ("c1", "a2"), ("h3", "a2")):
+                self.emit({"op": "AddAccountNode", "acct": a, "id": n})
+        if r.random() < 0.5 and not self.conf.get("raw"):
             self.emit({"op": "Deposit", "acct": r.choice(ACCTS), "amt": r.choice([10, 100, 1000])})
         if self.race:
             self.startup_burst()
